@@ -150,6 +150,17 @@ class WellTyped:
                 return [("wrong-class", locus, ctx, f"expected {cls.__name__}, got {type(obj).__name__}")]
         elif not isinstance(obj, cls):
             return [("wrong-class", locus, ctx, f"expected instance of {cls.__name__}, got {type(obj).__name__}")]
+        saved = self.s.container
+        if key[0] == "struct":
+            self.s.container = key[1]
+        try:
+            out.extend(self._check_props(obj, key, j, ctx, cls))
+        finally:
+            self.s.container = saved
+        return out
+
+    def _check_props(self, obj: Any, key: tuple, j: Any, ctx: str, cls: Any) -> List[Finding]:
+        out: List[Finding] = []
         for p in self.s.objects.props(key):
             attr = snake(p["name"])
             ploc = self.s.objects.prop_locus(key, p)
